@@ -24,11 +24,94 @@ UNITS = {
     'unitJ': {'spec': 'unitJ.vrs', 'expanded': True},
     'unitN': {'spec': 'unitN.vrs'},
     'unitH': {'spec': 'unitH.vrs'},
+    'unitK': {'spec': 'unitK.vrs'},
     'unitF': {'spec': 'unitF.vrs', 'expanded': True, 'threads': 8},
     'unitC': {'spec': 'unitC.vrs', 'expanded': True, 'threads': 16, 'timeout': 2400},
 }
 
 PROPS = {
+    'C01': {
+        'units': ['unitC', 'unitD', 'unitB', 'unitI'],
+        'obligations': ['C.', 'D.', 'B.', 'I.emit_wasm'],
+        'assumptions': ['A-sem', 'A-deps', 'A-arena', 'A-std', 'A-iter', 'A-float', 'A-arith', 'A-path', 'A-limits', 'A-extract', 'A-verus'],
+        'rules': 'as C03, C04, C19 and C08 (units C, D, B, I)',
+        'claimed': [
+            'composite: behavioural equivalence is decomposed (DESIGN.md section 6, C01) into (a) every operator is re-emitted as the same operator on the renumbered entities (C03, unit C: 526 operator arms, control arms, memarg), (b) every entity keeps its attributes and initialisers (C04, unit D), (c) the two index maps are consistent bijections per index space (C19, unit B), (d) sections are emitted in dependency order over the unchanged module (C08/C12, unit I); observational equivalence then follows from A-sem (renumbering, dead-code and nop elision are unobservable)',
+        ],
+        'unclaimed': [
+            'the execution semantics itself (A-sem) -- no interpreter is available in this sandbox, behaviour is compared structurally up to renumbering',
+            'function bodies as wholes (instruction ORDER across a body, dfs_in_order), local slot assignment (emit_locals), br_table, data / element segment emitters, start section: bounded stand-ins only',
+        ],
+        'standins': [
+            {'fn': 'per-operator round trip', 'argv': ['op'], 'bound': '537 operators, each in a skeleton module with operands found by validator search: the re-emitted body equals the input body up to renumbering', 'why': 'A-sem / whole-body order'},
+            {'fn': 'control-flow round trip', 'argv': ['cf', '4', '3'], 'bound': 'all block/loop/if/br/br_if/br_table/return/unreachable shapes with budget 4 and depth 3: reachability-normalised operator sequence equal', 'why': 'dfs_in_order and dead-code elision are outside Verus'},
+            {'fn': 'entities round trip', 'argv': ['entities'], 'bound': '18 modules covering every entity kind and attribute: canonical description of input and output equal', 'why': 'data / element / start emitters not under contract'},
+            {'fn': 'local numbering / builder trees', 'argv': ['builder', '60'], 'bound': '65 trees x 6 construction orders (see C15)', 'why': 'emit_locals / branch_target'},
+        ],
+    },
+    'C02': {
+        'units': ['unitI', 'unitB', 'unitE'],
+        'obligations': ['I.emit_wasm', 'B.', 'E.'],
+        'assumptions': ['A-deps', 'A-arena', 'A-std', 'A-iter', 'A-ext', 'A-extract', 'A-verus'],
+        'rules': 'as C08, C19, C06 (units I, B, E)',
+        'claimed': [
+            'Module::emit_wasm (whole real function, unit I): every section emitter is called with the index spaces it reads already complete (types < imports < tables/memories/globals < exports/start/elements < code < data < names), so no get_*_index lookup of an emitted entity can miss',
+            'index maps (unit B, real macro text): push assigns the next index once; get returns what push recorded',
+            'GC (unit E): the kept set contains the roots and is closed under "refers to", and exactly the unkept entities are deleted -- nothing that is still referenced is left without an emitted index',
+        ],
+        'unclaimed': [
+            'validity of the bytes (needs the validator: an external judgement) and panic-freedom of the individual section emitters in no_panic mode: bounded stand-ins only',
+        ],
+        'standins': [
+            {'fn': 'emit after parse / gc validates', 'argv': ['gc'], 'bound': '40 modules x {gc+emit, twice, re-parse}: no panic, output validates (see C06)', 'why': 'validity is the validator\'s judgement'},
+            {'fn': 'emit after parse validates (all entity kinds)', 'argv': ['features'], 'bound': '55 modules x {emit, gc+emit}: output validates under the full and the minimal feature set (see C20)', 'why': 'as above'},
+            {'fn': 'emit after builder edits', 'argv': ['builder', '60'], 'bound': '65 built trees x 6 orders: emit does not panic, output validates', 'why': 'as above'},
+            {'fn': 'emit after replace_* edits', 'argv': ['replace'], 'bound': '19 edits: emit does not panic, output validates', 'why': 'as above'},
+            {'fn': 'emit with a name section for every entity kind', 'argv': ['names'], 'bound': '5 modules x {emit, gc+emit}: no panic (names of data / element segments, locals, imported entities resolve to emitted indices)', 'why': 'as above'},
+            {'fn': 'emit with names / customs / configurations', 'argv': ['config'], 'bound': '96 configuration cases (see C14)', 'why': 'as above'},
+        ],
+    },
+    'C05': {
+        'units': ['unitK', 'unitI'],
+        'obligations': ['K.', 'I.config.features', 'I.config.only_stable_features'],
+        'assumptions': ['A-deps', 'A-std', 'A-extract', 'A-verus'],
+        'rules': 'R1 R2 R3 (one match arm of the payload loop of Module::parse per obligation; `continue` -> `return Ok(())`) R4 (operator loop body of LocalFunction::parse) R6 R10 (`let loc = if let Some(ref f) = on_instr_pos {..}` ==> pick_loc: dyn Fn); panic mode: no_panic (a reachable panic!/unreachable!/unimplemented! is a failed obligation)',
+        'claimed': [
+            'Module::parse, 16 payload arms (real text, no_panic mode): every section is handed to the validator first and is interpreted only if the validator accepted that very section; a validator error is returned before anything is interpreted; the gate invariant (interpreted subset of accepted; every queued function body carries the validator that accepted its entry) is kept by every arm',
+            'the `unreachable!()` behind unknown_section cannot be reached (the validator always rejects an unknown section id); the tag section is validated and then rejected with an error, never a panic',
+            'LocalFunction::parse, operator loop body (real text): an operator reaches append_instruction only after the function validator accepted it at its position; otherwise the step fails and the IR is untouched',
+            'ModuleConfig::get_wasmparser_wasm_features / only_stable_features (unit I): the feature set handed to parser and validator is exactly the finished proposals, plus multi-memory, memory64 and threads iff not only_stable_features',
+        ],
+        'unclaimed': [
+            'totality of the section interpreters themselves (parse_types .. parse_elements, append_instruction arms: unwraps of validated indices, unimplemented! on operators of proposals that are not enabled) -- proved in absent mode only (units C, D); completeness (every valid module of the supported features is accepted); stack depth; termination: bounded stand-in only',
+            'that the validator is sound and complete for the WebAssembly spec (A-deps)',
+        ],
+        'standins': [
+            {'fn': 'Module::parse as a gate, end to end', 'argv': ['gate'],
+             'bound': '62 corpus modules (every supported proposal incl. multi-memory, memory64 with i64 global offsets, threads, tail calls, simd) and, for each, every truncation of the first/last 400 bytes and 6 single-byte mutations of each of the first 400 bytes (~10^5 byte strings) x {default, only_stable_features}: walrus accepts exactly what an independent wasmparser Validator with the same feature set accepts, and never panics; tag section / tag import / unknown section id / component header are rejected with an error; only_stable_features rejects exactly the multi-memory, memory64 and threads modules; 1 000 / 20 000 / 200 000 nested blocks give a verdict (no stack overflow)',
+             'why': 'whole-module composition, recursion depth and completeness are not contract-expressible per function'},
+        ],
+    },
+    'C20': {
+        'units': ['unitC'],
+        'obligations': ['C.ir.InstrSeqType', 'C.ctx.', 'C.emit.', 'C.ty.'],
+        'assumptions': ['A-deps', 'A-std', 'A-extract', 'A-verus'],
+        'rules': 'as C03 (unit C)',
+        'claimed': [
+            'InstrSeqType::existing (real): a block signature that fits the inline MVP form (no params, at most one result) is ALWAYS represented as Simple -- never as a type index --, otherwise an existing live non-entry type is used; ValidationContext push_control* (real) build block types only through it',
+            'Emit::start_instr_seq / block_type (real, unit C): Simple(None) -> empty block type, Simple(Some(t)) -> the inline value type, MultiValue(id) -> that type\'s index: the encoding class of every block type is the one parsed',
+            'operator arms (C03): call_indirect / memory.size / memory.grow / table and memory immediates are re-emitted with the same table / memory entity (index 0 stays index 0 up to renumbering of imports-first index spaces)',
+        ],
+        'unclaimed': [
+            'data-count section (ModuleData::emit_data_count), element-segment encoding choice (ModuleElements::emit), explicit table index 0 on active segments: bounded stand-in only (not under contract yet)',
+            'that wasm-encoder picks single-byte encodings for index 0 (A-deps)',
+        ],
+        'standins': [
+            {'fn': 'feature escalation end to end', 'argv': ['features'],
+             'bound': '55 modules (15 written for this property: MVP modules with offset element segments, data without bulk ops, data-only / imports-only modules, result-typed loops/blocks/ifs with a matching function type declared, memory.size/grow, start + imported-global initialisers; one module needing exactly one proposal for each of bulk-memory (passive elem, passive data, active + data.drop), reference-types, multi-value, sign-extension, saturating conversions, mutable globals; plus the entities and gc corpora) x {emit, gc+emit} x 10 proposals: whatever proposal the input validates without, the output validates without, also all of them together; no data-count section unless bulk-memory is needed and none lost when it is; MVP input => every element segment flag 0; reserved table/memory bytes single zero bytes',
+             'why': 'section emitters for data / elements are not under contract yet; encodings are chosen inside wasm-encoder'},
+        ],
+    },
     'C11': {
         'units': ['unitH', 'unitC'],
         'obligations': ['H.map.', 'H.emit.', 'H.InstrLocId', 'C.emit.', 'C.ir.InstrLocId'],
